@@ -150,6 +150,8 @@ def fresh(e: ast.expr, model: Model, module: str, params: Set[str], locals_ok: S
     if isinstance(e, ast.Name):
         if e.id in locals_ok:
             return True, "local constant"
+        if e.id not in params and model.resolve_name(module, e.id) in model.classes:
+            return True, "class object"
         if e.id in params:
             return False, f"parameter `{e.id}` (caller-owned object stored in the session)"
         return False, f"module-level name `{e.id}`"
@@ -176,6 +178,20 @@ def fresh(e: ast.expr, model: Model, module: str, params: Set[str], locals_ok: S
                 stores = {x.id for x in walk_no_nested(fi.node) if isinstance(x, ast.Name) and isinstance(x.ctx, ast.Store)}
                 ok_params -= stores
                 loc_ok = {t.id for s_ in fi.node.body if isinstance(s_, ast.Assign) and isinstance(s_.value, ast.Constant) for t in s_.targets if isinstance(t, ast.Name)}
+                # a local bound once to a fresh value and then only grown with fresh elements is itself fresh
+                for s_ in fi.node.body:
+                    if isinstance(s_, (ast.Assign, ast.AnnAssign)) and s_.value is not None:
+                        tg = s_.targets[0] if isinstance(s_, ast.Assign) else s_.target
+                        if isinstance(tg, ast.Name) and tg.id not in ps:
+                            binds = [x for x in walk_no_nested(fi.node) if isinstance(x, ast.Name) and x.id == tg.id and isinstance(x.ctx, ast.Store)]
+                            okv, _ = fresh(s_.value, model, fi.module, set(ps) - ok_params, ok_params | loc_ok, _depth + 1)
+                            uses_ok = True
+                            for u in walk_no_nested(fi.node):
+                                if isinstance(u, ast.Call) and isinstance(u.func, ast.Attribute) and isinstance(u.func.value, ast.Name) and u.func.value.id == tg.id:
+                                    if u.func.attr not in ("append", "extend", "add", "insert") or not all(fresh(a, model, fi.module, set(ps) - ok_params, ok_params | loc_ok, _depth + 1)[0] for a in u.args):
+                                        uses_ok = False
+                            if len(binds) == 1 and okv and uses_ok:
+                                loc_ok.add(tg.id)
                 rets = [r for r in walk_no_nested(fi.node) if isinstance(r, ast.Return)]
                 if rets and all(r.value is not None for r in rets) and not any(isinstance(x, (ast.Global, ast.Nonlocal, ast.Yield, ast.YieldFrom)) for x in ast.walk(fi.node)):
                     for r in rets:
@@ -274,6 +290,9 @@ def check(model: Model, run: Run) -> None:
                     q = model.resolve_name(c.module, df.id)
                     ok = q in model.classes or df.id in ("list", "dict", "set")
                     why = "constructor as factory" if ok else f"factory `{df.id}` is not a constructor"
+                    if not ok and q in model.functions:
+                        call = ast.copy_location(ast.Call(func=df, args=[], keywords=[]), df)
+                        ok, why = fresh(call, model, c.module, set(), set())
             elif f.default is None and f.init:
                 ok, why = True, "required argument (no default)"
             run.ob("I2-option-defaults-are-fresh", ok, {"class": c.name, "field": f.name, "why": why})
